@@ -10,7 +10,12 @@
                 heap cells shared by design (Gen/Shared.lean, regenerated on every run); `cellKind`
                 below assigns each listed cell to a `SharedKind`, and `all_shared_cells_classified`
                 (Proofs/C14.lean) is proved by evaluation over the generated list — a NEW shared
-                mutable field is unclassified and breaks the obligation.
+                mutable field is unclassified and breaks the obligation. A static declared
+                `thread_local` is per-thread state, not a shared cell: the extractor lists it apart
+                (`Gen.threadLocalCells`), `threadCellKind` classifies that list, and the state lives
+                with the context (`Ctx.whatBuf`) — in this model a thread IS a context whose steps
+                are interleaved with the steps of the others. A cell that loses its `thread_local`
+                re-enters `Gen.sharedCells`, where `cellKind` does not know it.
   * `ctxs`    — per-context state: `St` of Model/Interp.lean (variables, value saved by `return`,
                 printed output) + the function declarations + the position of the current run.
 
@@ -19,7 +24,8 @@
   functor_manager.cpp (`reset`: entries re-created without their context cache, the `Functor` itself —
   name, parameters, body, prototype context — shared through a `shared_ptr`; `createEnv`),
   statement.cpp (`execute`: `_level = ctx.execLevel()` on the shared node), executable.cpp (`run`),
-  bloc_capi.cpp (`bloc_execute2`, `bloc_error_set`), exception.h (`Error::what`).
+  bloc_capi.cpp (`bloc_execute2`, `bloc_error_set`), exception.h (`Error::what`: formats into a
+  `static thread_local char buf[256]` since fix 1cb0b5a — one buffer per thread).
 
   Granularity: one `step` = one top-level statement of the context's current run (`Executable::run`
   loop body), executed by `exec` of Model/Interp.lean. Everything proved about interleavings is
@@ -27,13 +33,17 @@
   more is the data-race-freedom assumption, which is exactly what the recorded races break. The C++
   memory model, the allocator and `FILE*` locking are outside.
 
-  Where the model is cleaner than the pinned code (each a recorded finding, see NOTES-C14.md):
+  Two places where the model used to be cleaner than the code, and no longer is (both repaired):
   * a function body runs for the calling root (output stream, stop condition): the code does so
     since fix 137dbae; before, the call context was a copy of the function's prototype context
     (`Functor::ctx`, kind `functorProto`) and used the ORIGINAL's stream / stop flag / lifetime;
-  * handler selection compares the error's own name (`catchMatches`): the code compares the
-    clause name with `Error::what()`, i.e. with the process-wide static buffer (kind `whatBuffer`),
-    which another thread may be overwriting.
+  * handler selection compares the error's own name (`catchMatches`): `BEGINStatement::docatch`
+    compares the clause name with `Error::what()`, which formats the error's own name into the
+    buffer of the CALLING thread and is read back by that thread at once. Since fix 1cb0b5a the
+    buffer is `thread_local`, so no other context's error can be in it: the comparison is with the
+    error's own name, as modelled. (Before, it was one process-wide static buffer — a shared cell
+    of kind `whatBuffer` — which a thread formatting its own error could overwrite in between:
+    a handled user exception could miss its handler, finding C14.what_static_buffer, fixed.)
 -/
 import BlocV.Model.Interp
 import BlocV.Model.Store
@@ -52,10 +62,9 @@ inductive SharedKind
   | constValue
   /-- `MemberATExpression/TABExpression::_type_volatile`, written by `type() const` -/
   | typeVolatile
-  /-- `bloc_error` of bloc_capi.cpp: {message pointer, number}, process-wide -/
+  /-- `bloc_error` of bloc_capi.cpp: {message pointer, number} and `bloc_error_msg`, the record's own copy of the
+  message text: process-wide -/
   | errorRecord
-  /-- `Error::what()`'s function-local static buffer, process-wide -/
-  | whatBuffer
   /-- `Context::random`'s function-local statics (generator state, `seeded`) -/
   | rngState
   /-- `PluginManager::_instance`, `_internal`: the module registry singleton -/
@@ -88,7 +97,8 @@ def cellKind (c : String × String) : Option SharedKind :=
   else if c == ("blocc/member/member_at.h", "_type_volatile") then some .typeVolatile
   else if c == ("blocc/builtin/builtin_tab.h", "_type_volatile") then some .typeVolatile
   else if c == ("blocc/bloc_capi.cpp", "bloc_error") then some .errorRecord
-  else if c == ("blocc/exception.h", "buf") then some .whatBuffer
+  -- the record's own copy of the message text (fix 97cdad4): part of the same process-wide record
+  else if c == ("blocc/bloc_capi.cpp", "bloc_error_msg") then some .errorRecord
   else if c == ("blocc/context.cpp", "r") then some .rngState
   else if c == ("blocc/context.cpp", "seeded") then some .rngState
   else if c == ("blocc/plugin_manager.h", "_instance") then some .pluginRegistry
@@ -103,12 +113,27 @@ def cellKind (c : String × String) : Option SharedKind :=
   else if c == ("blocc/exception_runtime.h", "THROWABLES") then some .processConfig
   else none
 
+/-- Per-thread cells (`Gen.threadLocalCells`): one instance per thread. Not shared, so not a
+`SharedKind`; the model keeps their content in the context the thread runs. -/
+inductive ThreadKind
+  /-- `Error::what()`'s function-local `static thread_local char buf[256]`: the message of the last
+  error the thread formatted (`Ctx.whatBuf`) -/
+  | whatBuffer
+  deriving DecidableEq, Repr, Inhabited
+
+/-- The classification of every extracted `thread_local` cell. Anything not listed is `none`.
+`("blocc/exception.h", "buf")` is known HERE and deliberately NOT to `cellKind`: if the declaration
+loses its `thread_local`, the cell is listed in `Gen.sharedCells` and is unclassified there. -/
+def threadCellKind (c : String × String) : Option ThreadKind :=
+  if c == ("blocc/exception.h", "buf") then some .whatBuffer
+  else none
+
 /-- The kinds a statement step of the model writes. Every other kind is left alone by every
 operation of the model (`footprint`). What the C++ does to the others is said in NOTES-C14.md:
 `rngState` by `random()` (documented shared input, not in the modelled built-ins), `objectRefcount`
 / `pluginRegistry` by module objects (shared by design, not in the modelled values), `typeVolatile`
 by `type()` of table members (tables are not in the statement language of Model/Interp.lean). -/
-def writtenKinds : List SharedKind := [.stmtLevel, .errorRecord, .whatBuffer]
+def writtenKinds : List SharedKind := [.stmtLevel, .errorRecord]
 
 /-- A statement node of a shared executable, or of a shared function body. -/
 inductive StmtRef
@@ -214,6 +239,12 @@ structure Ctx where
   /-- depth of the exec stack between runs: 0 unless a foreign exception unwound through a
   `begin` block (then `execEnd` was skipped) -/
   execLevel : Nat := 0
+  /-- PER-THREAD, kept with the context its thread runs: `Error::what()`'s `thread_local` buffer as
+  `bloc_execute2` leaves it — the (number, argument) of the error that ended this context's last
+  failed run, the text `bloc_error.msg` points into right after that run. (Errors handled inside a
+  statement format into the same buffer and are read back within the same step: `exec` compares the
+  error's own name, see the header.) A clone is a new context: nothing formatted for it yet. -/
+  whatBuf : Option (Nat × Bytes) := none
   deriving Inhabited
 
 structure World where
@@ -233,8 +264,10 @@ def appendLevels (s : Shared) (ws : List (StmtRef × Nat)) : Shared :=
   | .levels log => updShared s .stmtLevel (.levels (log ++ ws))
   | _ => s
 
+/-- `bloc_error_set(re.what(), re.no)`: the ONE process-wide record {message pointer, number}. The
+text it points to is in the failing thread's own buffer (`Ctx.whatBuf`), not a shared cell. -/
 def recordError (s : Shared) (code : Nat) (arg : Bytes) : Shared :=
-  updShared (updShared s .whatBuffer (.lastError (some (code, arg)))) .errorRecord (.lastError (some (code, arg)))
+  updShared s .errorRecord (.lastError (some (code, arg)))
 
 /-- `FunctorManager::createOrReplace` over the declarations of a program, starting from the
 declarations the context already has (`collectFuncs` of Model/Interp.lean starts from none). -/
@@ -259,8 +292,9 @@ def purgeCtx (c : Ctx) : Ctx :=
   { c with st := { c.st with vars := [], returned := none }, funcs := [], running := false, retPending := false }
 
 /-- One statement of the run of context `ctx` (`Executable::run` loop body), returning the context
-after it and what it wrote to the shared cells. Reads: the context itself, the shared immutable
-programs, the fuel. -/
+after it and what it wrote to the shared cells: the `_level` log entries and, when the run ends with
+an error, the error record (the message itself goes to the thread's own `what` buffer, `whatBuf`).
+Reads: the context itself, the shared immutable programs, the fuel. -/
 def stepCtx (progs : List (List Stmt)) (fuel : Nat) (ctx : Ctx) : Ctx × List (StmtRef × Nat) × Option (Nat × Bytes) :=
   if !ctx.running then (ctx, [], none) else
   match (progs.getD ctx.prog [])[ctx.pc]? with
@@ -271,7 +305,7 @@ def stepCtx (progs : List (List Stmt)) (fuel : Nat) (ctx : Ctx) : Ctx × List (S
     | (.ok .norm, s') => ({ ctx with st := s', pc := ctx.pc + 1 }, lw, none)
     | (.ok .ret, s') => ({ ctx with st := s', running := false, result := some (.ok s'.returned), retPending := true }, lw, none)
     | (.ok _, s') => ({ ctx with st := s', running := false, result := some (.ok s'.returned) }, lw, none)
-    | (.err c a, s') => ({ ctx with st := s', running := false, result := some (.err c a) }, lw, some (c, a))
+    | (.err c a, s') => ({ ctx with st := s', running := false, result := some (.err c a), whatBuf := some (c, a) }, lw, some (c, a))
     | (.haz h, s') => ({ ctx with st := s', running := false, result := some (.haz h) }, lw, none)
     | (.unmodelled, s') => ({ ctx with st := s', running := false, result := some .unmodelled }, lw, none)
 
@@ -343,7 +377,6 @@ def initShared (consts : List Cell) : Shared
   | .constValue => .cells consts
   | .stmtLevel => .levels []
   | .errorRecord => .lastError none
-  | .whatBuffer => .lastError none
   | _ => .opaque 0
 
 def initWorld (progs : List (List Stmt)) (fuel : Nat := 100000) (consts : List Cell := []) : World :=
